@@ -264,7 +264,9 @@ func c02ReaderFacts(s *c02Src) (shortHdr, tornData Tri, where string) {
 		return Unknown, Unknown, c02Where(s.r, ra)
 	}
 	shortHdr, tornData = Unknown, Unknown
-	for i, st := range fd.Body.List {
+	pre := Unknown // the size pre-check (`CompressedSize > remaining`), when there is one
+	hasPre := false
+	for _, st := range fd.Body.List {
 		ifs, ok := st.(*ast.IfStmt)
 		if !ok {
 			continue
@@ -277,6 +279,19 @@ func c02ReaderFacts(s *c02Src) (shortHdr, tornData Tri, where string) {
 				shortHdr = No
 			}
 		}
+		// site 1: a comparison of CompressedSize with what is left of the file, before the allocation
+		if ifs.Init == nil && strings.Contains(cond, "CompressedSize") && strings.Contains(cond, ">") {
+			hasPre = true
+			if len(ifs.Body.List) == 1 {
+				switch s.r.Str(ifs.Body.List[0]) {
+				case "return nil, io.EOF":
+					pre = Yes
+				case "return nil, io.ErrUnexpectedEOF", "return nil, ErrCorruptedBlock", "return nil, err":
+					pre = No
+				}
+			}
+		}
+		// site 2: the error of the payload ReadFull
 		if ifs.Init != nil && strings.Contains(s.r.Str(ifs.Init), "io.ReadFull(fr.file, compressedData)") {
 			where = c02Where(s.r, ifs)
 			body := s.r.Str(ifs.Body)
@@ -287,7 +302,10 @@ func c02ReaderFacts(s *c02Src) (shortHdr, tornData Tri, where string) {
 				tornData = Yes
 			}
 		}
-		_ = i
+	}
+	// both sites decide how a short payload is reported: they must agree
+	if hasPre && pre != tornData {
+		tornData = Unknown
 	}
 	return
 }
